@@ -106,6 +106,10 @@ def cluster_part(ctx, v, out):
     for si in range(nscen):
         k = rng.choice([2, 2, 3])
         nb = rng.choice([1, 2, 3, 4, 5])
+        script = None
+        if si == 0:
+            # every run has the history in which the reachable set changes while its size stays the same
+            k, nb, script = 3, rng.choice([3, 4, 5]), ["replace", "restart", "stop", "start"]
         ds = gen.gen_dataset(rng, {"nbackends": [nb], "nhosts": [1, 2, 3], "nsvcs": [0, 1, 2]})
         wbs, mbs = [], []
         for b in ds["backends"]:
@@ -120,6 +124,8 @@ def cluster_part(ctx, v, out):
         order = list(range(k))
         rng.shuffle(order)
         first = order[:rng.choice([1, k])]
+        if script:
+            first = order[:2]
         add({"op": "clock", "seconds": T0})
         add({"op": "cluster", "config": cfg, "backends": wbs, "nodes": k, "start": first})
         running = set(first)
@@ -150,9 +156,9 @@ def cluster_part(ctx, v, out):
             steps.append({"what": what, "running": sorted(running), "states": states, "queries": queries})
 
         converge("start %s" % first)
-        for ev in range(rng.choice([1, 2, 3])):
+        for ev in range(len(script) if script else rng.choice([1, 2, 3])):
             down = [i for i in range(k) if i not in running]
-            choice = rng.choice(["stop", "start", "replace", "restart"])
+            choice = script[ev] if script else rng.choice(["stop", "start", "replace", "restart"])
             if choice == "stop" and len(running) > 1:
                 j = rng.choice(sorted(running))
                 add({"op": "cstop", "node": j})
@@ -198,6 +204,7 @@ def cluster_part(ctx, v, out):
         outs = list(ex.map(one, enumerate(chunks)))
     model = common.run_model(ctx["schema_path"], model_lines)
     totals = {"scenarios": nscen, "steps": 0, "queries": 0, "distributed_answers": 0}
+    known = {f.get("id") for f in common.load_known_findings() if f.get("property") == "C18" and f.get("status", "open") == "open"}
     for sc, chunk, (rc, impl, err, timed_out) in zip(scen, chunks, outs):
         case0 = {"text": "cluster of %d nodes, backends %s" % (sc["k"], sc["backends"]), "dataset": None, "extra": {"part": "cluster", "lines": chunk}}
         if rc != 0 or timed_out:
@@ -247,5 +254,29 @@ def cluster_part(ctx, v, out):
                     totals["distributed_answers"] += 1
                 qcase = {"text": text, "optimize": True, "dataset": sc["dataset"], "has_header_row": queryfam.has_header_row(text), "dataset_hash": common.case_hash(sc["backends"]) + str(qid),
                          "extra": {"part": "cluster", "asked_node": node, "running": st["running"], "assignment": assigned, "step": st["what"], "lines": [l for l in chunk if l["id"] <= qid and l["op"] != "cquery"] + [l for l in chunk if l["id"] == qid]}}
+                before = len(v.violations)
                 queryfam.evaluate_case(v, qcase, impl.get(qid), model.get(qid), set())
+                if len(v.violations) > before and "cluster-sort-missing-list-value" in known and missing_list_sort_key(schema, text) \
+                        and all("is not a row of tie class" in d for _, _, d in v.violations[before:]):
+                    # listed finding: the rows are the right ones, their order differs where a list typed sort column has no value
+                    del v.violations[before:]
+                    v.known_hits["cluster-sort-missing-list-value"] = v.known_hits.get("cluster-sort-missing-list-value", 0) + 1
     out.extra_cov["cluster"] = totals
+
+
+def missing_list_sort_key(schema, text):
+    """the request sorts by a list typed column that some rows have no value for: an optional column (not every backend has it)
+    or a column of a referenced object (host comments have no service)"""
+    lines = text.split("\n")
+    table = lines[0].split(" ", 1)[1].strip() if lines and lines[0].startswith("GET ") else ""
+    for l in lines[1:]:
+        if not l.lower().startswith("sort:"):
+            continue
+        name = l.split(":", 1)[1].strip().split(" ")[0].lower()
+        try:
+            c = schema.col(table, name)
+        except Exception:
+            continue
+        if c and c["dtype"] in ("StringListCol", "Int64ListCol", "ServiceMemberListCol", "InterfaceListCol") and (c.get("optional") or c["storage"] == "RefStore"):
+            return True
+    return False
